@@ -1,6 +1,7 @@
 package value
 
 import (
+	"errors"
 	"fmt"
 	"github.com/hneemann/iterator"
 	"github.com/hneemann/parser2/funcGen"
@@ -43,7 +44,10 @@ func Equal(fg *FunctionGenerator) OperationMatrix {
 
 	ef := func(st funcGen.Stack[Value], a, b Value) (bool, error) {
 		eq, err := deepEqual.Calc(st, a, b)
-		return bool(eq.(Bool)), err
+		if err != nil {
+			return false, err
+		}
+		return bool(eq.(Bool)), nil
 	}
 	fg.equal = ef
 	fg.FunctionGenerator.SetIsEqual(ef)
@@ -172,6 +176,9 @@ func Sub(fg *FunctionGenerator) OperationMatrix {
 func Left(fg *FunctionGenerator) OperationMatrix {
 	m := NewOperationMatrix(fg, "<<")
 	m.Register(IntTypeId, IntTypeId, func(st funcGen.Stack[Value], a, b Value) (Value, error) {
+		if b.(Int) < 0 {
+			return nil, errors.New("negative shift count")
+		}
 		return a.(Int) << b.(Int), nil
 	})
 	return m
@@ -180,6 +187,9 @@ func Left(fg *FunctionGenerator) OperationMatrix {
 func Right(fg *FunctionGenerator) OperationMatrix {
 	m := NewOperationMatrix(fg, ">>")
 	m.Register(IntTypeId, IntTypeId, func(st funcGen.Stack[Value], a, b Value) (Value, error) {
+		if b.(Int) < 0 {
+			return nil, errors.New("negative shift count")
+		}
 		return a.(Int) >> b.(Int), nil
 	})
 	return m
@@ -188,6 +198,9 @@ func Right(fg *FunctionGenerator) OperationMatrix {
 func Mod(fg *FunctionGenerator) OperationMatrix {
 	m := NewOperationMatrix(fg, "%")
 	m.Register(IntTypeId, IntTypeId, func(st funcGen.Stack[Value], a, b Value) (Value, error) {
+		if b.(Int) == 0 {
+			return nil, errors.New("modulo by zero")
+		}
 		return a.(Int) % b.(Int), nil
 	})
 	return m
